@@ -9,11 +9,13 @@
 #include "gmp++/gmp++.h"
 #include "givinteger.h"
 #include "givrnsfixed.h"
+#include "c14_watchdog.h"
 using namespace Givaro;
 typedef RNSsystemFixed<Integer> FX;
 int main() {
     std::string line;
     while (std::getline(std::cin, line)) {
+        c14_arm();
         std::istringstream in(line);
         std::string hist; size_t n; in >> hist >> n;
         std::vector<Integer> P(n), R(n), ones(n, Integer(1));
